@@ -143,6 +143,20 @@ def gen_exec(r, xid, tp, prof, raw=False):
     return lines
 
 
+def gen_loop_exec(r, xid, tp):
+    """Event-loop run (harness command L): two applications that trust only poll(xcm_fd) exchange messages in both
+    directions under random but fair cuts of the lower layer; optionally one of them closes when it is done."""
+    seq = tp in ("ux", "uxf", "utls")
+    lines = ["X %d %s" % (xid, tp)]
+    if not seq and r.random() < 0.4:
+        lines.append("Z %d" % r.choice([4096, 8192, 16384]))
+    big = r.random() < 0.12
+    n1, n2 = r.randint(0, 3 if big else 10), r.randint(0, 3 if big else 10)
+    lines.append("L %d %d %d %d %d" % (n1, n2, 2 if big else r.choice([0, 0, 1]), r.randint(1, 10 ** 6), r.choice([0, 0, 1, 2])))
+    lines.append("p")
+    return lines
+
+
 def gen_raw_exec(r, xid, tp):
     """Hostile peer: endpoint 2 is a raw TCP socket.  It writes well-formed frames, then possibly one malformed
     frame (illegal length), a truncated frame or garbage, in arbitrary pieces, and possibly dies."""
